@@ -23,6 +23,9 @@ RULE = ('case = (n items 0..8, 1-2 zipped lists, concurrency none|1..n+1|'
 
 def gen_case(D, max_n=8):
     n = D.int(0, max_n)
+    if max_n < 13 and D.bool(0.1):
+        # item counts with two-digit indexes also in the quick tier
+        n = D.int(10, 13)
     conc = None
     r = D.int(0, 3)
     if r == 1:
